@@ -91,6 +91,17 @@ func hpWords(out string) []string {
 	return res
 }
 
+// hpHeadings counts the output lines that begin with one of the log's dates.
+func hpHeadings(out string) int {
+	n := 0
+	for _, l := range verifLines(out) {
+		if verifHasPrefix(l, "2021/01/01") || verifHasPrefix(l, "2021/01/02") {
+			n++
+		}
+	}
+	return n
+}
+
 func hpCheck(tag, out string, names []string, nums []float64) {
 	gotNames, gotNums := hpWords(out), verifNums(out)
 	verifAssert(tag+":names-count", len(gotNames) == len(names))
@@ -238,6 +249,8 @@ func Harness_app_pipeline() {
 			}
 		}
 		hpCheck(cmd, out, regNames, regNums)
+		// every day is shown, also a day without entries, whatever the totals options
+		verifAssert(cmd+":one-heading-per-day", hpHeadings(out) == len(days))
 	}
 
 	// ---- summary DATE: the totals (positive register) and the foods of exactly that day
@@ -427,5 +440,6 @@ func Harness_app_pipeline() {
 			}
 		}
 		hpCheck("print", out, names, nums)
+		verifAssert("print:one-heading-per-day", hpHeadings(out) == len(days))
 	}
 }
